@@ -608,7 +608,7 @@ def run(repo, chk):
 
 
 WITNESSES = [
-    dict(name="control-time-as-decimal-hours", file=IO, old="                    entry = '{ltype} {link} {setting} AT {compare} {time}\\n'", new="                    entry = '{ltype} {link} {setting} AT {compare} {time:g}\\n'", rule="R-C12-8"),
+    dict(name="control-time-as-decimal-hours", file=IO, old="'time': '{:d}:{:02d}:{:02d}'.format(*_sec_to_string(all_control._condition._threshold))}", new="'time': '{:g}'.format(all_control._condition._threshold / 3600.0)}", rule="R-C12-8"),
     dict(name="rule-clock-12am-not-mapped", file="wntr/network/controls.py", old="            if len(words) > 1 and words[1] in ('AM', 'PM') and hours == 12:\n                hours = 0", new="            if False:\n                hours = 0", rule="R-C12-8"),
     dict(name="noon-hour-written-as-am", file=IO, old="        if hrs < 12:\n            time_format = ' AM'\n        else:\n            hrs -= 12\n            time_format = ' PM'",
          new="        time_format = ' AM'\n        if hrs > 12:\n            hrs -= 12\n            time_format = ' PM'", rule="R-C12-7"),
